@@ -15,7 +15,8 @@ type gen struct {
 	w   wiring
 	raw bool // link type of the frames: raw IPv4 (VPN mode) or Ethernet
 
-	hasNet bool
+	bigPayload bool
+	hasNet     bool
 	net    uint32
 	bits   int
 	ports  [][2]int
@@ -137,6 +138,43 @@ func (c *gen) portOut() uint16 {
 	return c.g.U16()
 }
 
+// ipOptBlock / tcpOptBlock: well-formed option blocks of exactly n bytes (n a multiple of 4, at most 40)
+func (c *gen) ipOptBlock(n int) []byte {
+	if n == 0 {
+		return nil
+	}
+	b := make([]byte, n)
+	if c.g.R.Bool() {
+		for i := range b {
+			b[i] = 1 // NOPs
+		}
+		return b
+	}
+	b[0], b[1], b[2] = 7, byte(n-1), 4 // record route filling the block, then end of list
+	return b
+}
+
+func (c *gen) tcpOptBlock(n int) []byte {
+	if n == 0 {
+		return nil
+	}
+	b := make([]byte, n)
+	switch c.g.R.Intn(3) {
+	case 0:
+		for i := range b {
+			b[i] = 1
+		}
+	case 1:
+		b[0], b[1] = 254, byte(n-1) // one long experimental option, then end of list
+	default:
+		copy(b, []byte{2, 4, 5, 0xb4})
+		for i := 4; i < n; i++ {
+			b[i] = 1
+		}
+	}
+	return b
+}
+
 type tcpSpec struct {
 	src     [4]byte
 	sport   uint16
@@ -171,7 +209,11 @@ func (c *gen) buildTCP(s tcpSpec) []byte {
 }
 
 func (c *gen) buildICMP(src [4]byte, typ, code uint8, ipOpts []byte, ff uint16, proto uint8) []byte {
-	msg := fr.ICMP(typ, code, c.g.U16(), c.g.U16(), c.g.R.Bytes(c.g.R.Intn(20)))
+	pl := c.g.R.Intn(20)
+	if c.bigPayload {
+		pl = 1500 - 20 - len(ipOpts) - 8 - c.g.R.Intn(300)
+	}
+	msg := fr.ICMP(typ, code, c.g.U16(), c.g.U16(), c.g.R.Bytes(pl))
 	return c.l2(0x0800, fr.IP(fr.IPOpt{TotalLen: -1, TOS: c.g.U8(), ID: c.g.U16(), FlagsFrag: ff, TTL: c.g.U8(), Proto: proto,
 		Src: src, Dst: c.g.IP4(), Options: ipOpts}, msg))
 }
@@ -208,7 +250,18 @@ func (c *gen) ipv6(nh uint8, inner []byte, frag bool) []byte {
 // one frame of the TCP scans
 func (c *gen) tcpFrame() ([]byte, string) {
 	s := c.goodTCP()
-	switch c.g.R.Intn(24) {
+	switch c.g.R.Intn(28) {
+	case 24, 25: // header sizes swept over everything a well-formed reply can carry
+		s.ipOpts, s.tcpOpts = c.ipOptBlock(4*c.g.R.Intn(11)), c.tcpOptBlock(4*c.g.R.Intn(11))
+		return c.buildTCP(s), "valid+header-sweep"
+	case 26: // the largest headers
+		s.ipOpts, s.tcpOpts = c.ipOptBlock(40), c.tcpOptBlock(40)
+		s.payload = c.g.R.Bytes(c.g.R.Intn(40))
+		return c.buildTCP(s), "valid+max-headers"
+	case 27: // payload up to the MTU
+		s.ipOpts, s.tcpOpts = c.ipOptBlock(4*c.g.R.Intn(3)), c.tcpOptBlock(4*c.g.R.Intn(4))
+		s.payload = c.g.R.Bytes(1500 - 20 - len(s.ipOpts) - 20 - len(s.tcpOpts) - c.g.R.Intn(200))
+		return c.buildTCP(s), "valid+mtu-payload"
 	case 0, 1, 2, 3:
 		return c.buildTCP(s), "valid"
 	case 4:
@@ -279,7 +332,14 @@ func (c *gen) tcpFrame() ([]byte, string) {
 func (c *gen) icmpFrame() ([]byte, string) {
 	typ := fr.Pick[uint8](c.g, 0, 3, 3, 11, 13, 14, 5, 12, c.g.U8())
 	code := c.g.U8()
-	switch c.g.R.Intn(16) {
+	switch c.g.R.Intn(19) {
+	case 16, 17:
+		return c.buildICMP(c.srcIn(), typ, code, c.ipOptBlock(4*c.g.R.Intn(11)), 0, 1), "valid+header-sweep"
+	case 18:
+		c.bigPayload = true
+		f := c.buildICMP(c.srcIn(), typ, code, c.ipOptBlock(4*c.g.R.Intn(11)), 0, 1)
+		c.bigPayload = false
+		return f, "valid+mtu-payload"
 	case 0, 1, 2, 3:
 		return c.buildICMP(c.srcIn(), typ, code, nil, fr.Pick[uint16](c.g, 0, 0x4000), 1), "valid"
 	case 4:
@@ -316,7 +376,9 @@ func (c *gen) icmpFrame() ([]byte, string) {
 }
 
 func (c *gen) arpFrame() ([]byte, string) {
-	switch c.g.R.Intn(10) {
+	switch c.g.R.Intn(11) {
+	case 10: // trailer longer than the minimum frame
+		return fr.Pad(c.buildARP(c.srcIn(), 6, 4, true), 61+c.g.R.Intn(200)), "valid+long-trailer"
 	case 0, 1, 2:
 		return c.buildARP(c.srcIn(), 6, 4, c.g.R.Bool()), "valid"
 	case 3, 4:
